@@ -239,6 +239,51 @@ def failing_theorems(build_out, prop):
     return sorted(set(names))
 
 
+def _anchored_files(prop):
+    for l in open(os.path.join(ROOT, "properties.jsonl")):
+        d = json.loads(l)
+        if d["id"] == prop:
+            return [f for f in d["anchors"]["files"] if f.endswith(".go")]
+    return []
+
+
+def fingerprints(prop):
+    """hash of every declaration of the property's anchored Go files (extract/fingerprint)"""
+    os.makedirs(WORK, exist_ok=True)
+    fb = os.path.join(WORK, "fingerprint")
+    src = os.path.join(ROOT, "extract", "fingerprint")
+    if not os.path.exists(fb) or os.path.getmtime(fb) < os.path.getmtime(os.path.join(src, "main.go")):
+        rc, out = sh(["go", "build", "-o", fb, "."], cwd=src, env=GOENV, timeout=600)
+        if rc != 0:
+            return None
+    files = [f for f in _anchored_files(prop) if os.path.exists(os.path.join(REPO, f))]
+    rc, out = sh([fb, REPO] + files, timeout=120)
+    if rc != 0:
+        return None
+    cur = collections.Counter()
+    for l in out.splitlines():
+        f = l.split("\t")
+        if len(f) == 3:
+            cur[(f[0], f[1], f[2])] += 1
+    return cur
+
+
+def changed_functions(prop):
+    """declarations whose fingerprint differs from the one recorded when the model was last validated
+    (facts/fingerprints/<prop>.tsv); [] when nothing changed or no baseline is recorded"""
+    base_path = os.path.join(ROOT, "facts", "fingerprints", f"{prop}.tsv")
+    cur = fingerprints(prop)
+    if cur is None or not os.path.exists(base_path):
+        return []
+    base = collections.Counter()
+    for l in open(base_path):
+        f = l.rstrip("\n").split("\t")
+        if len(f) == 3:
+            base[(f[0], f[1], f[2])] += 1
+    diff = (cur - base) + (base - cur)
+    return sorted({f"{k[0]}:{k[1]}" for k in diff})
+
+
 class Run:
     def __init__(self, prop, tier, seed):
         self.prop, self.tier, self.seed = prop, tier, seed
@@ -322,7 +367,7 @@ def correspond(run, cfg, have_model=True):
     cases_path = os.path.join(WORK, f"{prop}.cases")
     t = time.time()
     with open(cases_path, "w") as f:
-        p = subprocess.run([model_bin, prop, tier, str(seed)], stdout=f, stderr=subprocess.PIPE, text=True, timeout=7200)
+        p = subprocess.run([model_bin, prop, getattr(run, "gen_tier", tier), str(seed)], stdout=f, stderr=subprocess.PIPE, text=True, timeout=7200)
     if p.returncode != 0:
         return None, f"gpymodel failed: {p.stderr[-400:]}"
     gen_s = time.time() - t
@@ -402,6 +447,11 @@ def run_check(prop, tier, seed):
     run.cov["trusted_base"] = cfg["trusted_base"]
     run.cov["exhaustive"] = bool(cfg.get("exhaustive", False))
     run.assumptions = cfg.get("assumptions", [])
+    # a changed fingerprint is not a verdict: it directs the search (quick tier explores at thorough bounds)
+    run.changed = changed_functions(prop)
+    run.gen_tier = "thorough" if (run.changed and tier == "quick" and not cfg.get("no_escalation")) else tier
+    run.cov["changed_since_model_validated"] = run.changed[:50]
+    run.cov["generator_tier"] = run.gen_tier
     if hasattr(plug, "pre"):
         plug.pre(run)
     proved, problems, built = prove(run, cfg)
